@@ -108,7 +108,7 @@ type cmParams struct {
 }
 
 type chainMachine struct {
-	t       *rapid.T
+	t       cmFataler
 	app     *AkashApp
 	txcfg   client.TxConfig
 	actors  []*cmActor
@@ -219,18 +219,30 @@ func cmNewApp(actors []*cmActor, p cmParams) *AkashApp {
 	return app
 }
 
+// cmFataler is what the machine needs from *rapid.T / *testing.T.
+type cmFataler interface {
+	Fatalf(format string, args ...interface{})
+}
+
 func newChainMachine(t *rapid.T, prop string, oracle cmOracle, withTwin bool) *chainMachine {
+	var p cmParams
+	if rapid.IntRange(0, 3).Draw(t, "defaultParams") == 0 {
+		p = cmParams{depMin: 5_000_000, bidMin: 50_000_000}
+	} else {
+		p = cmParams{depMin: int64(rapid.IntRange(10, 200).Draw(t, "depMin")), bidMin: int64(rapid.IntRange(10, 200).Draw(t, "bidMin"))}
+	}
+	return newChainMachineWith(t, prop, oracle, withTwin, p)
+}
+
+// newChainMachineWith builds the machine with explicit parameters (used by the scripted replay tier).
+func newChainMachineWith(t cmFataler, prop string, oracle cmOracle, withTwin bool, p cmParams) *chainMachine {
 	m := &chainMachine{t: t, prop: prop, oracle: oracle, labels: map[string]bool{}, byAddr: map[string]*cmActor{},
 		msgStat: map[string][2]int{}, payCreated: map[string]int64{}, payClosed: map[string]int64{}, deposits: map[string]sdk.Int{}}
 	m.actors = cmNewActors()
 	for _, a := range m.actors {
 		m.byAddr[a.bech] = a
 	}
-	if rapid.IntRange(0, 3).Draw(t, "defaultParams") == 0 {
-		m.params = cmParams{depMin: 5_000_000, bidMin: 50_000_000}
-	} else {
-		m.params = cmParams{depMin: int64(rapid.IntRange(10, 200).Draw(t, "depMin")), bidMin: int64(rapid.IntRange(10, 200).Draw(t, "bidMin"))}
-	}
+	m.params = p
 	m.app = cmNewApp(m.actors, m.params)
 	if withTwin {
 		m.twin = cmNewApp(m.actors, m.params)
